@@ -919,6 +919,16 @@ where
         &mut self,
         cx: &mut Context<'_>,
     ) -> Poll<Result<Option<HeaderMap>, StreamError>> {
+        // The body has not been read to its end: `recv_data` has not answered `None` yet, or
+        // it failed inside a DATA frame. `FrameStream::poll_next` asserts that no payload is
+        // outstanding, so answer with an error instead of looking for the trailers.
+        if self.stream.has_data() {
+            return Poll::Ready(Err(StreamError::StreamError {
+                code: Code::H3_FRAME_UNEXPECTED,
+                reason: "trailers polled before the body was received to its end".to_string(),
+            }));
+        }
+
         let mut trailers = if let Some(encoded) = self.trailers.take() {
             encoded
         } else {
